@@ -9,6 +9,9 @@ from run_seeded import sh, run_check
 
 for d in sorted(glob.glob('/tmp/mut/out3/C*')):
     pid = os.path.basename(d)
+    only = [a for a in sys.argv[1:] if not a.startswith('--')]
+    if only and pid not in only:
+        continue
     for patch in sorted(glob.glob(d + '/patch*.diff')):
         i = os.path.basename(patch)[5:-5]
         res_file = f"{d}/result{i}.json"
